@@ -188,6 +188,13 @@ class LinForms:
         c = const_of(n)
         if c is not None and k != "DeclRefExpr":
             return lf_const(c)
+        if k == "ConditionalOperator" and len(n.get("c", [])) == 3:
+            # decided when the condition is a constant in this state (the version byte inside its partition, say)
+            cv = self.lin(n["c"][0], st)
+            if cv is not None and not (set(cv) - {ONE}):
+                return self.lin(n["c"][1] if cv.get(ONE, 0) != 0 else n["c"][2], st)
+            a_, b_ = self.lin(n["c"][1], st), self.lin(n["c"][2], st)
+            return a_ if a_ is not None and a_ == b_ else None
         if k == "DeclRefExpr" and (n.get("dk") == "enum" or ("v" in n and n.get("dk") not in ("var", "parm"))):
             return lf_const(n["v"])
         key = self.key_of(n)
